@@ -401,6 +401,8 @@ func (p *Parser) parseCaretBraces() (Revisioner, error) {
 		case tok == word && nextTok == cbrace && (lit == "commit" || lit == "tree" || lit == "blob" || lit == "tag" || lit == "object"):
 			return CaretType{lit}, nil
 		case re == "" && tok == cbrace:
+			// the token after "}" has been read ahead: give it back
+			p.unscan()
 			return CaretType{"tag"}, nil
 		case re == "" && tok == emark && nextTok == emark:
 			re += lit
